@@ -379,7 +379,7 @@ def main():
             rp = json.load(f)
         res = par.run_jobs(target, [{'seed': 0, 'replay': rp['replay']}], 1, timeout=300)
     else:
-        total = int((24000 if check.thorough else 320) * check.scale)
+        total = int((9600 if check.thorough else 320) * check.scale)      # (thorough: about 50 minutes on 16 idle cores)
         nj = check.jobs * (4 if check.thorough else 1)
         jobs = [{'seed': check.seed * 1000003 + i, 'n': max(1, total // nj), 'long': check.thorough} for i in range(nj)]
         res = par.run_jobs(target, jobs, check.jobs, timeout=7200 if check.thorough else 900)
